@@ -7,6 +7,9 @@ import OttoVerif.C05.Theorems
 namespace OttoVerif.C13.Thm
 open OttoVerif.F64 OttoVerif.Str OttoVerif.C13
 
+/-- an arbitrary library for witnesses that do not depend on it -/
+def Driverless.lib : Lib := { core1 := fun _ x => x, powCore := fun x _ => x, powLogPath := fun _ x _ => x }
+
 /-! ## isNaN / isFinite apply ToNumber (§15.1.2.4–5) -/
 
 theorem isNaN_isFinite (E : C05.Env) (v : C05.Val) :
@@ -179,6 +182,56 @@ theorem atan2_table (L : Lib) (y x r : FV) (h : Spec.atan2Table y x = some r) : 
       simp [Spec.atan2Table, isNaN, isZero_fin, Spec.isFiniteV, signBit, hy, hx, Spec.isPositive, zero] at h <;>
       simp [mathAtan2, goAtan2, isNaN, isZero_fin, isInf, copysign, signBit, hy, hx, zero, negZero, neg, ← h]
 
+/-! ## pow (§15.8.2.13) -/
+
+/-- C13.pow_table_partial — §15.8.2.13 for y NaN, y = ±0, x NaN, x = +∞ (any y) and x, y both infinite:
+    otto returns the tabulated result, except Math.pow(1, NaN) (Dev pow_one_nan).
+    (Full statement, not proved: the same for every (x, y) with `Spec.powTable x y = some r`; the
+    remaining bullets — finite x with y = ±∞, x = −∞ with finite y, x = ±0, and x < 0 with non-integer y —
+    are covered by the correspondence harness only; `isOddInt_eq` is the lemma they need.) -/
+theorem pow_table_partial (L : Lib) (x y r : FV) (hy : IsDouble y)
+    (hcase : isNaN y = true ∨ isZero y = true ∨ isNaN x = true ∨ x = .inf false ∨ (isInf x = true ∧ isInf y = true))
+    (hdev : ¬(eqNum x one = true ∧ isNaN y = true))
+    (h : Spec.powTable x y = some r) : mathPow L x y = r := by
+  cases y with
+  | nan =>
+    have hx : eqNum x one = false := by simpa [isNaN] using hdev
+    simp [Spec.powTable, isNaN] at h; subst h
+    simp [mathPow, goPow, isInf, isZero, isNaN, hx]
+  | inf t =>
+    cases x with
+    | nan => simp [Spec.powTable, isNaN, isZero] at h; subst h; simp [mathPow, goPow, isInf, isZero, isNaN, abs, one]
+    | inf s' =>
+      cases t <;> cases s' <;> simp [Spec.powTable, isNaN, isZero, Spec.gtOne, Spec.abs, one] at h <;> subst h <;>
+        simp [mathPow, goPow, isInf, isZero, isNaN, abs, one, negOne]
+    | fin s m e => simp [isNaN, isZero, isInf] at hcase
+  | fin t n f =>
+    by_cases hn : n = 0
+    · subst hn
+      simp [Spec.powTable, isNaN] at h; subst h
+      simp [mathPow, goPow, isInf]
+    · cases x with
+      | nan =>
+        simp [Spec.powTable, isNaN, hn] at h; subst h
+        by_cases h1 : eqNum (.fin t n f) one = true <;> simp [mathPow, goPow, isInf, isNaN, hn, abs, h1]
+      | inf s' =>
+        have hodd := isOddInt_eq t n f hy
+        have hne : eqNum (.inf s') one = false := by simp [one]
+        cases s'
+        · -- x = +∞
+          simp [Spec.powTable, isNaN, hn, Spec.isPositive, zero] at h
+          by_cases h1 : eqNum (.fin t n f) (.fin false 1 0) = true
+          · have := eq_one_not_far t n f h1
+            simp [this.2.2.1] at h; subst h
+            simp [mathPow, goPow, isInf, isNaN, isZero, hn, abs, h1, one]
+          · cases t <;> simp [hn] at h <;> subst h <;>
+              simp [mathPow, goPow, isInf, isNaN, isZero, hn, abs, h1, one, zero]
+        · simp [isNaN, isInf, hn] at hcase
+      | fin s m e => simp [isNaN, isInf, hn] at hcase
+
+/-- Dev pow_one_nan witness: Math.pow(1, NaN) -/
+example : mathPow Driverless.lib one .nan ≠ .nan := by decide
+
 /-! ## encodeURI / encodeURIComponent / decodeURIComponent (§15.1.3) -/
 
 set_option maxRecDepth 4000 in
@@ -241,6 +294,15 @@ example : ∀ r ∈ [97, 0xE9, 0x20AC, 32, 37], BMP r := by simp [BMP]
 example : encode (mathRound (.fin false (2^53-1) (-54))) ≠ encode (Spec.round (.fin false (2^53-1) (-54))) := by decide +kernel
 /-- round_half_add: 2^52+1 + 0.5 is a tie, rounds to even -/
 example : encode (mathRound (.fin false (2^52+1) 0)) ≠ encode (Spec.round (.fin false (2^52+1) 0)) := by decide +kernel
+/-- exp_overflow_early: at x = 709.5 (< Overflow = 709.78…) the amd64 test already overflows, so the model
+    (like the real code) answers +∞ whatever the library computes -/
+example : expOverflowAmd64 (decode 0x40862C0000000000) = true ∧ gt (decode 0x40862C0000000000) expOverflowConst = false := by
+  decide +kernel
+/-- log_subnormal: the logarithm is taken of a different number than the argument 5e-324 -/
+example : logFrexpAmd64 1 (-1074) ≠ .fin false 1 (-1074) := by decide
+/-- atan2_underflow: Math.atan2(-5e-324, -2) is +π; §15.8.2.5 has y<0 ⇒ result < 0 -/
+example : encode (mathAtan2 Driverless.lib (decode 0x8000000000000001) (decode 0xC000000000000000)) = encode pi := by
+  decide +kernel
 /-- escape_at -/
 example : unitsOfBytes (escape (.go [64])) ≠ Spec.escape [64] := by decide
 /-- escape_astral: U+1F600 -/
